@@ -112,48 +112,58 @@ fn r1(f: impl FnOnce() -> i64) -> i64 {
     region(f).unwrap_or(PANIC)
 }
 
-/// The accessor observation (tag 20 layout); each trait method is its own monitored call.
-pub fn acc_obs<T: ShortMessage>(m: &T) -> Vec<i64> {
+/// The accessor observation (tag 20 layout); each method is its own monitored call.  As a macro
+/// the calls are written in method syntax on the *concrete* type -- what user code writes -- so an
+/// inherent method that shadows the trait method is what gets observed; `acc_obs` below is the
+/// same list through a generic parameter, i.e. always the trait methods.
+macro_rules! acc_obs_m {
+    ($m:expr) => {{
+
     let mut o = vec![
-        r1(|| u8::from(m.r#type()) as i64),
-        r1(|| match m.super_type() {
+        r1(|| u8::from($m.r#type()) as i64),
+        r1(|| match $m.super_type() {
             MessageSuperType::ChannelVoice => 0,
             MessageSuperType::ChannelMode => 1,
             MessageSuperType::SystemCommon => 2,
             MessageSuperType::SystemRealTime => 3,
             MessageSuperType::SystemExclusive => 4,
         }),
-        r1(|| match m.main_category() {
+        r1(|| match $m.main_category() {
             MessageMainCategory::Channel => 0,
             MessageMainCategory::System => 1,
         }),
-        r1(|| opt(m.channel().map(|x| x.get() as i64))),
-        r1(|| opt(m.key_number().map(|x| x.get() as i64))),
-        r1(|| opt(m.velocity().map(|x| x.get() as i64))),
-        r1(|| opt(m.controller_number().map(|x| x.get() as i64))),
-        r1(|| opt(m.control_value().map(|x| x.get() as i64))),
-        r1(|| opt(m.program_number().map(|x| x.get() as i64))),
-        r1(|| opt(m.pressure_amount().map(|x| x.get() as i64))),
-        r1(|| opt(m.pitch_bend_value().map(|x| x.get() as i64))),
-        r1(|| m.is_note() as i64),
-        r1(|| m.is_note_on() as i64),
-        r1(|| m.is_note_off() as i64),
+        r1(|| opt($m.channel().map(|x| x.get() as i64))),
+        r1(|| opt($m.key_number().map(|x| x.get() as i64))),
+        r1(|| opt($m.velocity().map(|x| x.get() as i64))),
+        r1(|| opt($m.controller_number().map(|x| x.get() as i64))),
+        r1(|| opt($m.control_value().map(|x| x.get() as i64))),
+        r1(|| opt($m.program_number().map(|x| x.get() as i64))),
+        r1(|| opt($m.pressure_amount().map(|x| x.get() as i64))),
+        r1(|| opt($m.pitch_bend_value().map(|x| x.get() as i64))),
+        r1(|| $m.is_note() as i64),
+        r1(|| $m.is_note_on() as i64),
+        r1(|| $m.is_note_off() as i64),
     ];
-    match region(|| m.to_structured()) {
+    match region(|| $m.to_structured()) {
         Some(s) => o.extend_from_slice(&enc_struct(&s)),
         None => o.extend_from_slice(&[PANIC; 4]),
     }
-    o.push(r1(|| match m.r#type().super_type() {
+    o.push(r1(|| match $m.r#type().super_type() {
         FuzzyMessageSuperType::Channel => 0,
         FuzzyMessageSuperType::SystemCommon => 1,
         FuzzyMessageSuperType::SystemRealTime => 2,
         FuzzyMessageSuperType::SystemExclusive => 3,
     }));
-    o.push(r1(|| match m.r#type().super_type().main_category() {
+    o.push(r1(|| match $m.r#type().super_type().main_category() {
         MessageMainCategory::Channel => 0,
         MessageMainCategory::System => 1,
     }));
     o
+    }};
+}
+
+pub fn acc_obs<T: ShortMessage>(m: &T) -> Vec<i64> {
+    acc_obs_m!(m)
 }
 
 /// Runs `$body` with `$m` bound to the message (s,a,b) built as implementor kind `$k`.
@@ -329,7 +339,13 @@ pub fn exec(tag: i64, inp: &[i64]) -> Vec<i64> {
             Some(Ok(b)) => vec![1, b as i64],
             Some(Err(_)) => vec![0, NONE],
         },
-        20 => with_kind!(inp[0], inp[1], inp[2], inp[3], m => acc_obs(&m)),
+        20 => with_kind!(inp[0], inp[1], inp[2], inp[3], m => {
+            // method syntax on the concrete type, then whether the generic (trait) path agrees
+            let mut o = acc_obs_m!(m);
+            let same = (o == acc_obs(&m)) as i64;
+            o.push(same);
+            o
+        }),
         30 => {
             let (k1, k2, conv) = (inp[0], inp[1], inp[2]);
             let r = with_kind!(k1, inp[3], inp[4], inp[5], m => {
@@ -338,9 +354,9 @@ pub fn exec(tag: i64, inp: &[i64]) -> Vec<i64> {
                     match region(|| m.to_structured()) {
                         None => None,
                         Some(m2) => {
-                            let mut o = acc_obs(&m);
+                            let mut o = acc_obs_m!(m);
                             o.extend_from_slice(&bytes_of(&m));
-                            o.extend(acc_obs(&m2));
+                            o.extend(acc_obs_m!(m2));
                             o.extend_from_slice(&bytes_of(&m2));
                             Some(o)
                         }
